@@ -44,3 +44,9 @@ Record fx_prog := { fx_factor : fx_kind; fx_events : list fx_event; fx_sc : fx_s
 Inductive cexpr :=
 | CLeaf (attr : string)        (* self.<attr> *)
 | CComp (a b : cexpr).         (* a.compose(b) *)
+
+(* --- Transform.compose (generic callables): body of the lambda wrapped in the returned Transform *)
+Inductive gexpr :=
+| GPts                         (* the lambda's argument *)
+| GSelf (e : gexpr)            (* self.apply(e) *)
+| GOther (e : gexpr).          (* other.apply(e) *)
